@@ -82,7 +82,13 @@ def parse(arr, tr, ne, tmpdir, labels=None, outside=None):
             cy = float(np.mean([vv.y for vv in cell.vertices]))
             if tr["mirror_y"]:
                 cy = max_y - cy
-            region[cid] = int(lab[int(round(cy)), int(round(cx))])
+            iy, ix = int(round(cy)), int(round(cx))
+            if not (0 <= iy < lab.shape[0] and 0 <= ix < lab.shape[1]):
+                # coordinates in another frame than the pixel grid: the statement is about topology, so the cells are
+                # then compared up to relabelling instead of being matched to regions by position
+                region = None
+                break
+            region[cid] = int(lab[iy, ix])
         out["region"] = region
     return out
 
@@ -138,6 +144,18 @@ def check_image(p, ctx):
             if o["n_cells"] != len(t.cells):
                 return ctx.violation("cell-count", p, observed=o["n_cells"], expected=len(t.cells), detail={"transform": tr})
             reg = o["region"]
+            if reg is None:
+                ctx.count("cells-not-matchable-by-position(compared up to relabelling)")
+                got_sig = degree_signature(list(o["cells"]), o["pairs"], o["border"])
+                exp_sig = degree_signature(list(t.cells), exp_pairs, exp_border)
+                if got_sig != exp_sig or o["n_junctions"] != exp_junctions:
+                    return ctx.violation("topology-differs(up to relabelling)", p,
+                                         observed={"cells": o["n_cells"], "border": len(o["border"]), "pairs": len(o["pairs"]),
+                                                   "junctions": o["n_junctions"]},
+                                         expected={"cells": len(t.cells), "border": len(exp_border), "pairs": len(exp_pairs),
+                                                   "junctions": exp_junctions}, detail={"transform": tr})
+                sigs.append((o["n_cells"], o["n_junctions"], len(o["pairs"]), len(o["border"])))
+                continue
             if sorted(reg.values()) != sorted(cell_of_region):
                 return ctx.violation("cells-vs-regions", p, observed=sorted(reg.values())[:10],
                                      expected=sorted(cell_of_region)[:10], detail={"transform": tr})
